@@ -149,6 +149,18 @@ class TableNames:
         self.table_prefix: str = f"{sanitize_table_prefix(app_id)}__{component}"
 
 
+def _owns_table(prefix: str, name: str) -> bool:
+    """
+    Tell whether ``name`` is one of the tables created under ``prefix``.
+
+    ``LIKE 'prefix%'`` treats ``_`` as a wildcard, ignores ASCII case and also
+    matches the tables of another app whose id merely starts with this prefix.
+    A table belongs to the prefix only if it continues with a single ``_`` and
+    the rest contains no ``__`` (the separator that follows an app's hash).
+    """
+    return name.startswith(prefix + "_") and "__" not in name[len(prefix):]
+
+
 def delete_tables_with_prefix(sqlite_db_path: str | Path, prefix: str) -> None:
     """
     Delete all data from tables in the SQLite database that start with the given prefix.
@@ -165,7 +177,9 @@ def delete_tables_with_prefix(sqlite_db_path: str | Path, prefix: str) -> None:
             (f"{prefix}%",),
         )
         try:
-            tables = [row[0] for row in cursor.fetchall()]
+            tables = [
+                row[0] for row in cursor.fetchall() if _owns_table(prefix, row[0])
+            ]
         finally:
             try:
                 cursor.close()
